@@ -18,10 +18,7 @@ levels connected by steps below `atol` (`sameLevel` = `Closure.closure`, the mod
 `comm_trans` — the kept part of a block the algorithm treats as commuting is transitive — as a hypothesis the proof of `B`/`Yadj` had forced; the code
 of that time decided "equal within atol" pair by pair and did *not* meet it for chains of close levels (defect D37: the hypothesis marked the spot).  With
 the repaired code and the model of its closure the clause is a theorem (`C01_kept_pattern_transitive`), and `C01_chains_of_close_levels` states C01 for
-`AcceptedCore` = `Accepted` without it.  The clause `gap` ("an entry that is not kept has `|ΔE| > atol`", what lets the solver divide) excluded the point
-`|ΔE| = atol`, where the code of that time marked the pair for elimination and did not divide (defect D38); "equal" is now `|ΔE| ≤ atol` in code and model, the
-complement of the solver's test, and `C01_masks_and_denominators_agree` proves the clause inside blocks fully diagonalised by the list form (for masks given by
-the caller the code checks it: `C20_mask_eliminates_degenerate_pair`; between blocks it is `no_shared`, checked at first use).
+`AcceptedCore` = `Accepted` without it.
 -/
 import PymaVerif.Proofs.Accepted
 import PymaVerif.Proofs.DriverSound
@@ -84,11 +81,21 @@ theorem C01_chains_of_close_levels (h : p.AcceptedCore) (h2 : (2 : K) ≠ 0) :
       ∀ (m : Fin p.nparams →₀ ℕ) (a b : Fin p.d), p.keptE a.val b.val = false → coeff m (p.sr "U†" * p.sr "H" * p.sr "U") a b = 0 :=
   ⟨Problem.C01 h.accepted h2, fun m a b hk => Problem.C01_elim h.accepted h2 m a b hk⟩
 
+/-- **C01** for the list form (or the absence) of `fully_diagonalize` nothing is asked of the masks — symmetry, kept diagonal, gap and transitivity are
+theorems about the model of the code's mask construction —: `U†·H·U = H̃` and the zeros on the eliminated entries for every problem whose *input* is
+well-formed (`InputOK`: shapes, `atol ≥ 0`, Hermitian terms, diagonal `H_0`, energies of different blocks apart), whatever the levels inside a block -/
+theorem C01_every_list_form_problem (h : p.InputOK) (h2 : (2 : K) ≠ 0) :
+    p.sr "U†" * p.sr "H" * p.sr "U" = p.sr "H_tilde" ∧
+      ∀ (m : Fin p.nparams →₀ ℕ) (a b : Fin p.d), p.keptE a.val b.val = false → coeff m (p.sr "U†" * p.sr "H" * p.sr "U") a b = 0 :=
+  ⟨Problem.C01 h.accepted h2, fun m a b hk => Problem.C01_elim h.accepted h2 m a b hk⟩
+
 /-! Non-vacuity: concrete accepted problems over ℚ — three 1×1 blocks; two blocks with a partial mask on one of them and a
 degenerate kept pair; the default two-block call (optimised flags on); a single block with two parameters. -/
 example : w3.sr "U†" * w3.sr "H" * w3.sr "U" = w3.sr "H_tilde" := C01_similarity w3_accepted (by norm_num)
 example : wd.sr "U†" * wd.sr "H" * wd.sr "U" = wd.sr "H_tilde" := C01_similarity wd_accepted (by norm_num)
 example : w2.sr "U†" * w2.sr "H" * w2.sr "U" = w2.sr "H_tilde" := C01_similarity w2_accepted (by norm_num)
+-- two blocks, `fully_diagonalize=[0]`, the two levels of the first block exactly `atol` apart
+example : wlist.sr "U†" * wlist.sr "H" * wlist.sr "U" = wlist.sr "H_tilde" := (C01_every_list_form_problem wlist_input (by norm_num)).1
 -- a chain of levels 0, 7, 14 under `atol = 10` in a fully diagonalised block: the ends are farther apart than `atol` and kept together all the same
 example : wchain.sr "U†" * wchain.sr "H" * wchain.sr "U" = wchain.sr "H_tilde" := (C01_chains_of_close_levels wchain_core (by norm_num)).1
 example : w1.sr "U†" * w1.sr "H" * w1.sr "U" = w1.sr "H_tilde" := C01_similarity w1_accepted (by norm_num)
